@@ -635,7 +635,8 @@ func (state *BuildState) forwardResults() {
 			log.Debug("%s", r)
 		}
 	}()
-	activeTargets := map[*BuildTarget]struct{}{}
+	// Keyed by label: results logged through LogBuildError (failures) carry no target pointer.
+	activeTargets := map[BuildLabel]struct{}{}
 	// Persist this one timer throughout so we don't generate bazillions of them.
 	t := time.NewTimer(cycleCheckDuration)
 	t.Stop()
@@ -658,12 +659,12 @@ func (state *BuildState) forwardResults() {
 		} else {
 			result = <-state.progress.internalResults
 		}
-		if target := result.target; target != nil {
-			if result.Status.IsActive() {
-				activeTargets[target] = struct{}{}
-			} else {
-				delete(activeTargets, target)
+		if result.Status.IsActive() {
+			if result.target != nil {
+				activeTargets[result.Label] = struct{}{}
 			}
+		} else {
+			delete(activeTargets, result.Label)
 		}
 		state.progress.mutex.Lock()
 		if state.progress.results != nil {
